@@ -223,6 +223,9 @@ def interpolate(new_note, last_note, next_note):
 
     """
     from musiclang import Note
+    if not isinstance(new_note, Note):
+        # Already realized into a melody by another tag
+        return new_note
     if next_note is None or not next_note.is_note or not new_note.is_note:
         return new_note
     
